@@ -50,8 +50,7 @@ def raise_with_traceback(
     exc: BaseException,
     tb: TracebackType | None
 ) -> NoReturn:
-    exc.__traceback__ = tb
-    raise exc
+    raise exc.with_traceback(tb)
 
 
 def encode_string(s: str) -> bytes:
@@ -230,7 +229,10 @@ def create_formatted_exception(
             inst = cls.__new__(new)
 
         BaseException.__init__(inst, *exc.args)
-        inst.__dict__ = exc.__dict__  # type: ignore[assignment]
+        # (not through a ``__setattr__`` of the class: one that guards
+        # the instance against changes would raise here and its error
+        # would replace the exception being reported)
+        object.__setattr__(inst, '__dict__', exc.__dict__)
 
         # State kept outside the instance dictionary (errno, strerror
         # and filename of an OSError, the value of a StopIteration, the
@@ -243,7 +245,7 @@ def create_formatted_exception(
                                      GetSetDescriptorType)) and \
                         name not in ('__dict__', '__weakref__'):
                     try:
-                        setattr(inst, name, getattr(exc, name))
+                        object.__setattr__(inst, name, getattr(exc, name))
                     except (AttributeError, TypeError, ValueError):
                         pass
 
